@@ -613,10 +613,89 @@ fn threads_sampling(ctx: &Ctx) {
     ctx.run.space(json!({"engine": "16 free-running threads, same builds, compared with the sequential result -- SAMPLING of OS schedules, labelled as such; not what the claim rests on (build() contains no synchronisation operation a controlled scheduler could intercept)", "builds_per_thread": u.len() * 3}));
 }
 
+/// I-engine: interference between DIFFERENT builders on one thread. For a pool of (set, settings) cases whose sets
+/// overlap and whose settings differ, every ordered pair (A, B) -- and, for a sub-pool, every ordered triple -- is
+/// executed on a brand-new thread: build A (, build A'), then build B; B's result must equal B's result on a thread
+/// that has built nothing else. Whatever a build leaves behind in thread-local or process-wide state (a memo keyed
+/// on too little, a scratch buffer, a lazily filled table) shows as a difference for some pair.
+fn interference(ctx: &Ctx) {
+    let thorough = ctx.run.is_thorough();
+    let s = |v: &[&str]| v.iter().map(|x| x.to_string()).collect::<Vec<String>>();
+    let words = if thorough { s(&["b", "ab", "abab", "xb", "B", "test", "contest", "1b"]) } else { s(&["b", "ab", "abab", "xb", "B"]) };
+    let mut sets: Vec<Vec<String>> = vec![];
+    for i in 0..words.len() {
+        sets.push(vec![words[i].clone()]);
+        for j in i + 1..words.len() {
+            sets.push(vec![words[i].clone(), words[j].clone()]);
+        }
+    }
+    sets.push(words.iter().take(4).cloned().collect());
+    let cfg_bits: Vec<u32> = if thorough { vec![0, G, X, C, R, R | G, R | X, I, E, D, W | R, NA | NE] } else { vec![0, G, X, C, R | G, R | X, I, E] };
+    let cfgs: Vec<Cfg> = cfg_bits.iter().map(|b| Cfg::new(*b)).collect();
+    let pool: Vec<(Vec<String>, Cfg)> = sets.iter().flat_map(|t| cfgs.iter().map(move |c| (t.clone(), *c))).collect();
+    // reference: each case alone on its own new thread
+    let reference: Vec<Result<String, String>> = {
+        let out = Mutex::new(vec![None; pool.len()]);
+        par_for(pool.len(), |i| {
+            let r = fresh_thread_build(pool[i].1, &pool[i].0);
+            out.lock().unwrap()[i] = Some(r);
+        });
+        out.into_inner().unwrap().into_iter().map(|x| x.unwrap()).collect()
+    };
+    let pairs = AtomicU64::new(0);
+    par_for(pool.len(), |a| {
+        // one new thread per first element A: A is built, then B, for every B -- each (A, B) on its own thread
+        for b in 0..pool.len() {
+            let (pa, pb) = (pool[a].clone(), pool[b].clone());
+            let got = std::thread::spawn(move || {
+                let _ = pa.1.build(&pa.0);
+                pb.1.build(&pb.0)
+            })
+            .join()
+            .unwrap_or_else(|_| Err("thread panicked".into()));
+            pairs.fetch_add(1, Ordering::Relaxed);
+            ctx.run.eval();
+            if got != reference[b] {
+                let sig = format!("interference:build-after-a-different-builder-differs earlier_flags={} flags={}", pool[a].1.flag_names().join(","), pool[b].1.flag_names().join(","));
+                ctx.run.violation(viol("C10", "determinism", sig, &pool[b].0, &pool[b].1, got.as_deref().unwrap_or("<panic>"),
+                    json!({"earlier_build_on_the_same_thread": {"test_cases": pool[a].0, "settings": pool[a].1.name()}, "expected": reference[b].clone().unwrap_or_else(|e| format!("<panic {e}>"))})));
+            }
+        }
+        ctx.run.mark_nontrivial(hash_case(&pool[a].0, &pool[a].1) ^ 0x1e7e);
+    });
+    // triples on a sub-pool: two earlier builds
+    let sub: Vec<usize> = (0..pool.len()).filter(|i| pool[*i].0.len() <= 2 && [0, G, X, R | G].contains(&pool[*i].1.bits) && pool[*i].0.iter().all(|w| ["b", "ab", "abab"].contains(&w.as_str()))).collect();
+    let triples = AtomicU64::new(0);
+    par_for(sub.len() * sub.len(), |k| {
+        let (a, a2) = (sub[k / sub.len()], sub[k % sub.len()]);
+        for &b in &sub {
+            let (pa, pa2, pb) = (pool[a].clone(), pool[a2].clone(), pool[b].clone());
+            let got = std::thread::spawn(move || {
+                let _ = pa.1.build(&pa.0);
+                let _ = pa2.1.build(&pa2.0);
+                pb.1.build(&pb.0)
+            })
+            .join()
+            .unwrap_or_else(|_| Err("thread panicked".into()));
+            triples.fetch_add(1, Ordering::Relaxed);
+            ctx.run.eval();
+            if got != reference[b] {
+                let sig = format!("interference:build-after-two-different-builders-differs flags={}", pool[b].1.flag_names().join(","));
+                ctx.run.violation(viol("C10", "determinism", sig, &pool[b].0, &pool[b].1, got.as_deref().unwrap_or("<panic>"),
+                    json!({"earlier_builds_on_the_same_thread": [{"test_cases": pool[a].0, "settings": pool[a].1.name()}, {"test_cases": pool[a2].0, "settings": pool[a2].1.name()}], "expected": reference[b].clone().unwrap_or_else(|e| format!("<panic {e}>"))})));
+            }
+        }
+    });
+    ctx.run.traces.fetch_add(pairs.load(Ordering::Relaxed) + triples.load(Ordering::Relaxed), Ordering::Relaxed);
+    ctx.run.space(json!({"engine": "I (interference between different builders on one thread): every ordered pair of the pool, every ordered triple of a sub-pool, each on a brand-new thread; the last build compared with the same build on a thread that built nothing else",
+        "pool": pool.len(), "sets": sets.len(), "settings": cfgs.iter().map(|c| c.name()).collect::<Vec<_>>(), "pairs": pairs.load(Ordering::Relaxed), "triple_sub_pool": sub.len(), "triples": triples.load(Ordering::Relaxed)}));
+}
+
 pub fn run(ctx: &Ctx) {
     *ctx.run.rule.lock().unwrap() = "H: BFS over real RegExpBuilder objects from permuted/duplicated initial lists, one transition per setter/build/clone, states merged only when (owned test-case vector, config) are identical, invariant (build, build twice, clone-build == fresh canonical build under the reference-model settings) evaluated in every state; orders: every permutation and single duplication of every set; N: DFS over every choice at the hash-order seam (iteration order of the repetition map in cluster.rs; the representative-choice seam in recreate_graph was retired together with the nondeterminism it exposed, fix 5b265b8), all combinations when <= cap executions else all with <= 2 (then 1) non-default choices, plus 8 un-seamed builds per case (fresh RandomState per container: this part samples hash seeds and is what catches iteration over a container that has no seam); separate processes compared by digest; lazy tables: all 3! first-use orders in fresh processes; a case is non-trivial when it has more than one execution / a history state; distinct by hash".into();
     ctx.run.assumptions.lock().unwrap().push("after fix 5b265b8 the hash seed can influence build() only through the iteration order of the repetition map (seamed, explored exhaustively); every other HashSet/HashMap use in dfa.rs and cluster.rs is membership, insertion, min() or set algebra (reviewed) -- cross-checked by 8 un-seamed builds per case with fresh RandomState and by separate processes".into());
     h_engine(ctx);
+    interference(ctx);
     orders(ctx);
     n_engine(ctx);
     lazy_tables(ctx);
